@@ -63,7 +63,7 @@ pub fn check(case: &Case, st: &mut Stats) -> Result<(), String> {
     if case.ctx == "xml-seq-text" || case.ctx == "xml-seq-attr" {
         return check_xml_seq(case);
     }
-    if case.ctx == "xml-ref-text" || case.ctx == "xml-ref-attr" {
+    if case.ctx == "xml-ref-text" || case.ctx == "xml-ref-attr" || case.ctx == "xml-ref-eof" {
         return check_xml_ref(case);
     }
     if case.ctx == "table" {
@@ -145,7 +145,14 @@ fn xml_eval(attr: bool, s: &str) -> String {
     }
     let tok = XmlTokenizer::new(S(RefCell::new(String::new()), attr), Default::default());
     let q = markup5ever::buffer_queue::BufferQueue::default();
-    let doc = if attr { format!("<r v=\"{s}\"/>") } else { format!("<r>{s}</r>") };
+    // a trailing U+0001 asks for end of input right after the text (element content only)
+    let doc = if attr {
+        format!("<r v=\"{s}\"/>")
+    } else if let Some(t) = s.strip_suffix('\u{1}') {
+        format!("<r>{t}")
+    } else {
+        format!("<r>{s}</r>")
+    };
     q.push_back(tendril::StrTendril::from(doc.as_str()));
     let _ = tok.feed(&q);
     tok.end();
@@ -158,7 +165,7 @@ fn xml_eval(attr: bool, s: &str) -> String {
 /// tokenizer).  Used for numeric references and for strings that are not references at all.
 fn check_xml_ref(case: &Case) -> Result<(), String> {
     let attr = case.ctx == "xml-ref-attr";
-    let got = xml_eval(attr, &case.text);
+    let got = if case.ctx == "xml-ref-eof" { xml_eval(false, &format!("{}\u{1}", case.text)) } else { xml_eval(attr, &case.text) };
     let want = if attr {
         let c = build("dq", &case.text);
         let rf = c01::run_ref(&c);
@@ -472,6 +479,19 @@ pub fn run(ctx: &Ctx) -> Report {
         ] {
             xr.push(Case { ctx: cx.into(), text: t.into() });
         }
+    }
+    // end of input inside or right after a reference (element content)
+    for t in [
+        "&#65", "&#x41", "&#", "&#x", "&#X", "&", "&a", "&am", "&amp", "&amp;", "&not", "&noti", "&notin", "&notin;", "&#65;", "&#x110000", "&#0", "&lt", "&l",
+        "&#x4", "&#6", "&unknown", "&unknown;", "x&", "&#xD800", "&#153",
+    ] {
+        xr.push(Case { ctx: "xml-ref-eof".into(), text: t.into() });
+    }
+    for (name, _) in e.list.iter().step_by(7) {
+        xr.push(Case { ctx: "xml-ref-eof".into(), text: format!("&{name}") });
+        let mut cut = name.clone();
+        cut.pop();
+        xr.push(Case { ctx: "xml-ref-eof".into(), text: format!("&{cut}") });
     }
     // every table name (with and without its semicolon) x a few followers
     for (name, _) in e.list.iter() {
